@@ -18,7 +18,7 @@ LEVEL = "model_checking"
 RULE = ("(a) every string of <= 3 (quick) / <= 4 (thorough) tokens over {<b>, &amp;, &, \", LF, </div>, "
         "<!--, e-acute, '} as HTML() child / _repr_html_ result / script+style text / HTML() attribute "
         "value in each emission context; (b) every operand sequence of length <= 5 (quick) / <= 6 "
-        "(thorough) over {plain '<&>', plain 'x&', HTML('<&>'), HTML(''), 5, object with __str__} holding "
+        "(thorough) over {plain '<&>', 'x&' as an instance of a str subclass, HTML('<&>'), HTML(''), 5, object with __str__} holding "
         ">= 1 HTML, x every binary grouping x every +/+= spelling of every operator. Non-trivial = "
         "markup contains a metacharacter / expression mixes plain and HTML operands. Distinct by "
         "construction.")
@@ -122,6 +122,22 @@ def fn_markup(toks):
 
 
 # ----------------------------------------------------------- (b) expressions
+def chars_of(v):
+    """the text a plain operand stands for: the characters of a str (also of a str subclass
+    instance), str(v) of anything else."""
+    return str.__str__(v) if isinstance(v, str) else str(v)
+
+
+class LoudOperand(str):
+    """str subclass whose __str__/__format__ are not its characters."""
+
+    def __str__(self):
+        return "<STR>"
+
+    def __format__(self, spec):
+        return "<FMT>"
+
+
 class Obj:
     def __str__(self):
         return "o<&"
@@ -132,7 +148,7 @@ def operand(code):
     if code == "p1":
         return "<&>"
     if code == "p2":
-        return "x&"
+        return LoudOperand("x&")       # a str subclass: contributes its characters, like any str
     if code == "h1":
         return HTML("<&>")
     if code == "h0":
@@ -176,7 +192,7 @@ def evaluate(tree, codes, spell, counter, leaves=None):
     if isinstance(tree, int):
         v = operand(codes[tree])
         if leaves is not None:
-            leaves.append((v, str(v)))
+            leaves.append((v, chars_of(v)))
         if isinstance(v, HTML):
             return v, True, [("html", str(v))]
         return v, False, [("plain", v)]
@@ -215,7 +231,7 @@ def fn_expr(codes):
                 continue
             nex += 1
             desc = {"operands": codes, "grouping": repr(tree), "iadd_mask": spell}
-            changed = [t for (o, t) in leaves if str(o) != t]
+            changed = [t for (o, t) in leaves if chars_of(o) != t]
             if changed:
                 viols.append(("expr:operand-mutated", "evaluating the concatenation changed one of its operands "
                               f"(was {changed[0]!r})", desc))
@@ -223,14 +239,14 @@ def fn_expr(codes):
             if not isinstance(v, HTML):
                 viols.append(("expr:not-HTML", f"concatenation result is {type(v).__name__}, not HTML", desc))
                 continue
-            exp = "".join(p[1] if p[0] == "html" else canon_text_escape(str(p[1])) for p in parts)
+            exp = "".join(p[1] if p[0] == "html" else canon_text_escape(chars_of(p[1])) for p in parts)
             got = Tag("div", v).get_html_string()
             if got != "<div>" + exp + "</div>":
                 viols.append(("expr:wrong-escaping", "rendering of the concatenation differs from its "
                               "operands rendered as adjacent children (each plain operand escaped once)",
                               dict(desc, observed=got, expected="<div>" + exp + "</div>")))
                 continue
-            kids = [HTML(p[1]) if p[0] == "html" else str(p[1]) for p in parts]
+            kids = [HTML(p[1]) if p[0] == "html" else chars_of(p[1]) for p in parts]
             adj = Tag("span", "", *kids, _add_ws=False).get_html_string()
             if adj != "<span>" + exp + "</span>":
                 viols.append(("expr:adjacent-children", "adjacent children render differently from the reference",
